@@ -199,6 +199,10 @@ def _run_laplace(case):
     expect = np.concatenate([lam[:, None, None] * planes, expect_mix])
     M = waves_in.shape[0]
 
+    if case["reuse"]:
+        # a convergence study: an operator of ANOTHER accuracy has been used on the same grid, sampling and energy earlier
+        # in this process; the operator under test must still be the stencil of its own accuracy
+        LaplaceOperator(2 if acc != 2 else 6).apply(abtem.Waves(np.ones(gpts, np.complex64), energy=case["energy"], sampling=samp))
     op = LaplaceOperator(acc)
     if case["reuse"]:  # use the same operator first on a wave with another sampling (stencil cache keyed by sampling)
         other = abtem.Waves(np.ones(gpts, np.complex64), energy=case["energy"], sampling=(samp[0] * 1.5, samp[1] * 0.75))
